@@ -1563,7 +1563,9 @@ namespace bloch::runtime {
     }
 
     void RuntimeEvaluator::initStaticFields(RuntimeClass* cls) {
-        if (!cls)
+        // once per class: a class first initialised on demand (from another class's initialiser) is
+        // not initialised again when its turn comes
+        if (!cls || cls->staticInitStarted)
             return;
         cls->staticInitStarted = true;
         // First every static field gets its default, then the declared initialisers run in textual
